@@ -62,13 +62,15 @@ Proof.
       * apply ends_attr_ws; [exact Hws|discriminate].
 Qed.
 
-Theorem attribute_set_runs open l close after :
-  is_bracket open (Some BAttr) (Some true) = true -> runs_ok l -> is_close_attr close = true ->
-  attribute_set (open :: render_runs l ++ close :: after) =
-  ASOk (map (fun r => snd (fst r)) l) (length (open :: render_runs l) + 1).
+Theorem attribute_set_runs open lead l close after :
+  is_bracket open (Some BAttr) (Some true) = true -> forallb is_white_space_tok lead = true ->
+  runs_ok l -> is_close_attr close = true ->
+  attribute_set (open :: lead ++ render_runs l ++ close :: after) =
+  ASOk (map (fun r => snd (fst r)) l) (length (open :: lead ++ render_runs l) + 1).
 Proof.
-  intros O OK C. unfold attribute_set. rewrite O.
-  rewrite attr_set_loop_runs by assumption. cbn [app length]. reflexivity.
+  intros O L OK C. unfold attribute_set. rewrite O.
+  rewrite attr_set_loop_ws by exact L.
+  rewrite attr_set_loop_runs by assumption. cbn [lift app length]. f_equal. rewrite !app_length. lia.
 Qed.
 
 (* ================================================================ unquoted values with parentheses *)
@@ -199,51 +201,50 @@ Proof.
 Qed.
 
 (* ---------------------------------------------------------------- the attribute list *)
-Fixpoint lay (pos : nat) (l : list sattr) : list run :=
+Lemma ws_toks_ws pos w : forallb is_white_space_tok (ws_toks pos w) = true.
+Proof. destruct w; reflexivity. Qed.
+
+Fixpoint lay (pos : nat) (l : list (sattr * str)) : list run :=
   match l with
   | [] => []
-  | [a] => [(attr_toks pos a, attr_tattr pos a, [])]
-  | a :: l' =>
-      (attr_toks pos a, attr_tattr pos a, [space_tok (pos + length (attr_text a))])
-      :: lay (pos + length (attr_text a) + 1) l'
+  | (a, w) :: l' =>
+      (attr_toks pos a, attr_tattr pos a, ws_toks (pos + length (attr_text a)) w)
+      :: lay (pos + length (attr_text a) + length w) l'
   end.
-
-Lemma lay_cons pos a b l' :
-  lay pos (a :: b :: l') =
-    (attr_toks pos a, attr_tattr pos a, [space_tok (pos + length (attr_text a))])
-    :: lay (pos + length (attr_text a) + 1) (b :: l').
-Proof. reflexivity. Qed.
 
 Lemma lay_render : forall l pos, render_runs (lay pos l) = attrs_toks pos l.
 Proof.
-  induction l as [|a l IH]; intros pos; [reflexivity|].
-  destruct l as [|b l'].
-  - cbn [lay render_runs attrs_toks app]. rewrite app_nil_r. reflexivity.
-  - rewrite lay_cons. cbn [render_runs]. rewrite IH. reflexivity.
+  induction l as [|[a w] l IH]; intros pos; [reflexivity|].
+  cbn [lay render_runs attrs_toks]. rewrite IH. reflexivity.
 Qed.
 
-Lemma lay_ok : forall l pos, Forall sattr_ok l -> runs_ok (lay pos l).
+Lemma lay_nonempty pos l : l <> [] -> lay pos l <> [].
+Proof. destruct l as [|[a w] l]; [congruence|discriminate]. Qed.
+
+Lemma lay_ok : forall l pos,
+  Forall (fun aw => sattr_ok (fst aw) /\ ws_ok (snd aw)) l -> seps_ok l -> runs_ok (lay pos l).
 Proof.
-  induction l as [|a l IH]; intros pos HF; [exact I|].
-  inversion HF as [|x y Ha HF']; subst.
-  destruct l as [|b l'].
-  - cbn [lay runs_ok]. split; [apply attr_reads; exact Ha|]. split; [reflexivity|]. split; [intros H; exfalso; apply H; reflexivity|exact I].
-  - rewrite lay_cons. cbn [runs_ok]. split; [apply attr_reads; exact Ha|]. split; [reflexivity|].
-    split; [intros _; discriminate|apply IH; exact HF'].
+  induction l as [|[a w] l IH]; intros pos HF Hs; [exact I|].
+  inversion HF as [|x y [Ha Hw] HF']; subst. cbn [fst snd] in *. cbn [seps_ok] in Hs. destruct Hs as [Hsep Hs'].
+  cbn [lay runs_ok]. split; [apply attr_reads; exact Ha|]. split; [apply ws_toks_ws|]. split.
+  - intros Hne. assert (Hl : l <> []) by (intros ->; apply Hne; reflexivity).
+    specialize (Hsep Hl). destruct w; [congruence|discriminate].
+  - apply IH; assumption.
 Qed.
 
-Definition set_tattrs (pos : nat) (l : list sattr) : list tattr := map (fun r => snd (fst r)) (lay pos l).
+Definition set_tattrs (pos : nat) (l : list (sattr * str)) : list tattr := map (fun r => snd (fst r)) (lay pos l).
 
-(* `[a1 a2 ... an]`: attribute_set reads back exactly the written attributes and consumes through `]` *)
-Lemma attribute_set_part pos l after :
-  Forall sattr_ok l ->
-  attribute_set (part_toks pos (PSet l) ++ after) = ASOk (set_tattrs (pos + 1) l) (length (part_toks pos (PSet l))).
+(* `[ lead a1 w1 ... an wn ]`: attribute_set reads back exactly the written attributes and consumes through `]` *)
+Lemma attribute_set_part pos lead l after :
+  spart_ok (PSet lead l) ->
+  attribute_set (part_toks pos (PSet lead l) ++ after) =
+    ASOk (set_tattrs (pos + 1 + length lead) l) (length (part_toks pos (PSet lead l))).
 Proof.
-  intros HF. cbn [part_toks]. rewrite <- lay_render.
-  pose proof (attribute_set_runs (tk1 (TBracket true BAttr) pos) (lay (pos + 1) l)
-                (tk1 (TBracket false BAttr) (pos + 1 + length (attrs_text l))) after
-                eq_refl (lay_ok l (pos + 1) HF) eq_refl) as H.
-  cbn [app]. rewrite <- app_assoc. cbn [app]. rewrite H.
+  intros [Hlead [HF Hs]]. cbn [part_toks]. rewrite <- lay_render.
+  pose proof (attribute_set_runs (tk1 (TBracket true BAttr) pos) (ws_toks (pos + 1) lead) (lay (pos + 1 + length lead) l)
+                (tk1 (TBracket false BAttr) (pos + 1 + length lead + length (attrs_text l))) after
+                eq_refl (ws_toks_ws _ _) (lay_ok l _ HF Hs) eq_refl) as H.
+  cbn [app]. rewrite <- !app_assoc. cbn [app]. rewrite H.
   unfold set_tattrs. f_equal. cbn [length]. rewrite !app_length. cbn [length]. lia.
 Qed.
 
@@ -272,7 +273,7 @@ Definition part_tattrs (pos : nat) (p : spart) : list tattr :=
   match p with
   | PId k v => [short_tattr s_id (pos + S k) v (Nat.ltb 1 (S k))]
   | PClass k v => [short_tattr s_class (pos + S k) v (Nat.ltb 1 (S k))]
-  | PSet l => set_tattrs (pos + 1) l
+  | PSet lead l => set_tattrs (pos + 1 + length lead) l
   end.
 Fixpoint parts_tattrs (pos : nat) (ps : list spart) : list tattr :=
   match ps with
@@ -368,7 +369,7 @@ Lemma elem_body_part jsx s pos p rest :
   spart_ok p -> pstop rest ->
   elem_body jsx s (part_toks pos p ++ rest) = ECont (est_add_attrs s (part_tattrs pos p)) (length (part_toks pos p)).
 Proof.
-  intros Hok Hst. destruct p as [k v|k v|l]; cbn [part_toks].
+  intros Hok Hst. destruct p as [k v|k v|lead l]; cbn [part_toks].
   - rewrite <- app_assoc. cbn [app]. rewrite app_length, op_run_length. cbn [length].
     cbn [op_run app]. apply elem_body_default; [reflexivity|]. cbv zeta.
     rewrite text_zero by reflexivity.
@@ -388,7 +389,7 @@ Proof.
     rewrite text_zero by reflexivity.
     rewrite (short_attribute_other jsx OpId) by reflexivity.
     rewrite (short_attribute_other jsx OpClass) by reflexivity.
-    pose proof (attribute_set_part pos l rest Hok) as H. cbn [part_toks app] in H. rewrite H.
+    pose proof (attribute_set_part pos lead l rest Hok) as H. cbn [part_toks app] in H. rewrite H.
     destruct (e_value s); reflexivity.
 Qed.
 
